@@ -216,7 +216,7 @@ class Interp:
 
     def __init__(self, fi, program, inline=None, loop_policy=None,
                  noreturn=None, assume=None, max_inline=3, bind=None,
-                 try_raises=True):
+                 try_raises=True, extra_pure=()):
         self.fi = fi
         self.P = program
         self.m = program.model
@@ -226,6 +226,7 @@ class Interp:
         self.max_inline = max_inline
         self.bind = bind or {}
         self.try_raises = try_raises
+        self.extra_pure = set(extra_pure)
         from . import excflow
         self._noreturn = noreturn or (
             lambda f, call: excflow.is_noreturn_call(self.P, f, call))
@@ -727,6 +728,10 @@ class Interp:
                 and ft[1][9:] in self.PURE_FUNCS:
             return True
         if ft[0] == "attr" and ft[2] in self.PURE_METHODS:
+            return True
+        if ft[0] == "attr" and ft[2] in self.extra_pure:
+            return True
+        if ft[0] == "global" and ft[1].split(".")[-1] in self.extra_pure:
             return True
         return False
 
